@@ -15,6 +15,8 @@ struct Args {
     tier: Tier,
     replay: Option<String>,
     scale: f64,
+    run_seed: Option<u64>,
+    determinism: Option<u64>,
 }
 
 fn parse_args() -> Args {
@@ -27,6 +29,8 @@ fn parse_args() -> Args {
         },
         replay: None,
         scale: 1.0,
+        run_seed: None,
+        determinism: None,
     };
     while let Some(x) = it.next() {
         match x.as_str() {
@@ -38,6 +42,8 @@ fn parse_args() -> Args {
                 }
             }
             "--replay" => a.replay = it.next(),
+            "--determinism" => a.determinism = it.next().and_then(|s| s.parse().ok()),
+            "--run-seed" => a.run_seed = it.next().and_then(|s| s.parse().ok()),
             "--runs-scale" => a.scale = it.next().and_then(|s| s.parse().ok()).unwrap_or(1.0),
             s if a.prop.is_empty() => a.prop = s.to_string(),
             s => die(&format!("unexpected argument {s}")),
@@ -61,11 +67,35 @@ struct Plan<'a> {
     replay: Option<&'a serde_json::Value>,
     replay_result: Option<Result<(bool, Vec<String>), String>>,
     scale: f64,
+    run_seed: Option<u64>,
+    determinism: Option<u64>,
+    det_bad: usize,
     assumptions: Vec<&'static str>,
 }
 
 impl Plan<'_> {
     fn part<E: Engine>(&mut self, eng: E, quick: u64, thorough: u64, rule: &str) {
+        if let Some(n) = self.determinism {
+            let bad = simcore::engine::determinism_check(self.ctx, &eng, n);
+            println!("determinism[{}]: {} seeds x2, {} differ", eng.name(), n, bad.len());
+            for (seed, what) in bad.iter().take(10) {
+                println!("  seed {seed}: {what}");
+            }
+            self.det_bad += bad.len();
+            return;
+        }
+        if let Some(seed) = self.run_seed {
+            // debugging aid: execute the case of one run seed twice and print what happened
+            let case = eng.generate(0, seed, self.ctx.tier);
+            println!("case: {}", serde_json::to_string(&eng.sample(&case)).unwrap());
+            for k in 0..2 {
+                let t = Instant::now();
+                let out = simcore::engine::execute_case(&eng, &case, seed);
+                println!("exec {k}: hash={:016x} nontrivial={} sim_s={:.3} wall_ms={} violations={:?} harness_error={:?}", out.trace_hash, out.nontrivial, out.sim_seconds, t.elapsed().as_millis(), out.violations.iter().map(|v| format!("{} — {}", v.signature(), v.detail)).collect::<Vec<_>>(), out.harness_error);
+                println!("   stats={:?}", out.stats.0);
+            }
+            return;
+        }
         if let Some(file) = self.replay {
             if file["engine"].as_str() == Some(eng.name()) {
                 self.replay_result = Some(replay_case(&eng, file));
@@ -103,6 +133,10 @@ fn plan(p: &mut Plan<'_>) {
             p.part(journalsim::JournalSim { clauses }, 600_000, 60_000_000, "two-endpoint journal simulation: packet assemblies (built, trivial, abandoned) through drop/dup/reorder channels, receiver ACK generation at drawn capacities, acks / loss reports / fast retransmit / expiry on the virtual clock; non-trivial = some fault fired and packets were received and acknowledged; distinct = hash of the event history");
             p.assumptions = vec!["frames are u32 tags", "abandonment only before anything is recorded (the only one reachable through PacketWriter)", "gen_ack largest is a received, still tracked packet number", "a packet declared lost whose expiry passed may be forgotten by the journal"];
         }
+        "C02" => {
+            p.part(netsim::NetSim { mode: netsim::Mode::C02 }, 1500, 200_000, "full client/server runs over SimNet with a seeded fault tape (bounded = survivable, liveness judged; unbounded = safety + bounded failure); non-trivial = a fault fired and the handshake or some stream made progress; distinct = hash of the wire trace and application event trace");
+            p.assumptions = vec!["TLS key material is not seeded (Ed25519 chain keeps message sizes fixed)", "single-threaded seeded executor: task order is permuted, polls never run truly concurrently"];
+        }
         other => die(&format!("no check for property {other}")),
     }
 }
@@ -128,9 +162,15 @@ fn main() {
         let text = std::fs::read_to_string(path).unwrap_or_else(|e| die(&format!("{path}: {e}")));
         serde_json::from_str::<serde_json::Value>(&text).unwrap_or_else(|e| die(&format!("{path}: {e}")))
     });
-    let mut p = Plan { ctx: &ctx, report: Report::default(), replay: replay_val.as_ref(), replay_result: None, scale: args.scale, assumptions: vec![] };
+    let mut p = Plan { ctx: &ctx, report: Report::default(), replay: replay_val.as_ref(), replay_result: None, scale: args.scale, run_seed: args.run_seed, determinism: args.determinism, det_bad: 0, assumptions: vec![] };
     plan(&mut p);
 
+    if args.determinism.is_some() {
+        std::process::exit(if p.det_bad == 0 { 0 } else { 2 });
+    }
+    if args.run_seed.is_some() {
+        return;
+    }
     if let Some(path) = &args.replay {
         match p.replay_result {
             Some(Ok((true, _))) => {
